@@ -1,5 +1,29 @@
 """C15 — elliptic-curve arithmetic implements the group law (src/ecm.rs, src/ecm128.rs)."""
+# SIZE AUDIT (quick tier)  [measured with seed 1; n = modulus, k = scalar]
+# Widths in the code: ecm::Curve works over ZmodN (k = ceil(bits/64) words, 1..8; ecm()/factor() refuse n > 500 bits; 501..512 bits
+# fail first in C07/C09 mechanisms, see `modulus`); ecm128 works over M128 (u128, n <= 128 bits) with a 64-bit Montgomery path when
+# n >> 64 == 0 and the u128 path from 65 bits; scalars are u64 (chains of <= 33 opcodes) or Uint = 1024 bits (<= 294 opcodes);
+# SmoothBase::new takes its primes from fbase::primes for b1 < 65536 and from the segmented PrimeSieve from 65536 on (ecm() uses
+# B1 = 200 .. 350e6, so the second source is the one of every run on n >= 311 bits).
+#
+# op                         quick: sizes of n reached (bits)                            thorough        supported
+# chain64                    k: every bit length 0..64, +-16 around 2^32, 2^63, 2^64      same + random   u64            complete
+# chain1024                  k: 478 bit lengths up to 1024, 2^1024-1, 2^1023, word edges  same + random   1024 bits      complete
+# ed_ops/ed_chainmul/        61,63,64 | 121,127,128 | 190,192 | 253,256 | 291..319 |      same classes    <= 500 (512)   TOP of every word class only
+#   ed_chainmul1024/ecm_mul/ 382,384 | 430..448 | 499,500   (bits = 64w - {0,0,1,2,r<32})                                  (top word >= 2^32): never 65, 66,
+#   ecm_mul1024/suyama(_ops)                                                                                              129, 193, 257, 321, 385, 449
+# ed128_ops/ed128_chainmul/  61,63,64,121,127,128                                         same            <= 128         64-bit path and the top of the
+#   ecm128_mul                                                                                                            u128 path; 65/66 bits (first
+#                                                                                                                         values of the u128 path) never
+# smoothbase                 b1 = 16, 200, 5000, 60000                                    same            usize          65536 switch and everything
+#                                                                                                                         above (ecm() goes to 350e6) never
+# scalars of the multiplications: structured 64-bit list incl. 2^64-1, 2^64-3, 33-opcode scalars; 1024-bit list incl. 2^1024-1.
+# Added by the audit (boundary_cases, yielded first in both tiers): every multiplication / formula / curve-construction op on
+# moduli of 65, 129, 193, 257, 321, 385, 449 bits (top word 1), composite 65/129-bit moduli, the primes next to
+# 2^64, 2^128, 2^256, 2^448 on both sides and below 2^500; the ecm128 ops on all of those <= 128 bits; smoothbase at 65535,
+# 65536, 65537, 100000, 200000, 1500000.
 import math
+import random
 from vlib.pipeline import Case
 from vlib import gen
 
@@ -47,7 +71,10 @@ TIMEOUT = 30.0
 W = 1 << 64
 HYPOTHESES = []
 
-RULE = ("points of large order modulo every prime factor (random points, prime factors >= 2^31, factors recorded for the oracle); scalars: 0..4096, powers of two, all-ones, everything within 16 of 2^64 and 2^32, 33-opcode scalars, SmoothBase "
+RULE = ("boundary family first (both tiers): every op on moduli of 65, 129, 193, 257, 321, 385, 449 bits (first values of each word "
+        "class; ecm128: first values of the u128 path), composite ones, the primes next to 2^64, 2^128, 2^256, 2^448 on both sides and "
+        "below 2^500; SmoothBase at the 65536 switch of its prime source and at B1 = 100000, 200000, 1500000; then "
+        "points of large order modulo every prime factor (random points, prime factors >= 2^31, factors recorded for the oracle); scalars: 0..4096, powers of two, all-ones, everything within 16 of 2^64 and 2^32, 33-opcode scalars, SmoothBase "
         "blocks (B1 16..60000), random; 1024-bit scalars sparse/dense/top-word patterns; moduli prime and composite 1..8 "
         "words (prime factors >= 2^31); both curve families (Suyama-11 a=-1, (3s+5,4s+5) a=+1), several seeds; explicit "
         "on-curve and off-curve coordinates for the formula ops; non-trivial = scalar > 7 or a formula op; distinct by request")
@@ -170,7 +197,7 @@ def small_primes(limit):
 
 
 def smoothbase(b1, use_large):
-    """re-implementation of ecm::SmoothBase::new for b1 < 65536"""
+    """re-implementation of ecm::SmoothBase::new (any b1: the primes below b1, whichever source the code takes them from)"""
     factors, larges = [], []
     buf, buf_lg = 1, 1
     for p in small_primes(b1):
@@ -343,7 +370,83 @@ def ftag(factors):
     return "f=" + ",".join(map(str, factors))
 
 
+def _fork(rng, label):
+    """own stream for the boundary family: depends on the run's seed, leaves the stream of the older families untouched"""
+    return random.Random(f"{label}:{rng.getstate()[1][:4]}")
+
+
+def boundary_moduli(rng):
+    """(n, prime factors): the first values of every word class (top word 1), which `modulus` never produces, and the
+    primes next to the word boundaries on both sides"""
+    out = []
+    for bits in (65, 129, 193, 257, 321, 385, 449):
+        p = gen.rand_prime(rng, bits)
+        out.append((p, [p]))
+    for b1, b2 in ((32, 33), (64, 65)):                     # composite, prime factors >= 2^31: 65, 129 bits
+        while True:
+            p, q = gen.rand_prime(rng, b1), gen.rand_prime(rng, b2)
+            if (p * q).bit_length() == b1 + b2:
+                break
+        out.append((p * q, [p, q]))
+    for e in (64, 128, 256, 448):
+        p = gen.next_prime(1 << e)                           # 2^e + small: low words almost empty
+        out.append((p, [p]))
+    for e in (64, 128, 256, 448, 500):
+        p = gen.prev_prime(1 << e)                           # 2^e - small: every word 2^64 - 1 except the lowest
+        out.append((p, [p]))
+    return out
+
+
+def boundary_cases(rng, tier):
+    """size audit: the ops of the main loop on the moduli of `boundary_moduli`; SmoothBase around its 65536 switch"""
+    M = (1 << 1024) - 1
+    for b1, lg in ((65535, 0), (65535, 1), (65536, 0), (65536, 1), (65537, 0), (65537, 1), (100000, 1), (200000, 1), (1500000, 1)):
+        yield Case(f"smoothbase {b1} {'true' if lg else 'false'}", k=False)
+    smooth64 = smoothbase(60000, False)[0]
+    large = smoothbase(60000, True)[1]
+    for i, (n, fs) in enumerate(boundary_moduli(rng)):
+        ft = ftag(fs)
+        small = n.bit_length() <= 128
+        ks = [W - 1, rng.choice([0x9111111111111111, (1 << 63) + 1, rng.getrandbits(64) | 1 << 63]), rng.choice(smooth64)]
+        for a in (1, -1):
+            tw = "true" if a == -1 else "false"
+            d, P = curve_point(rng, n, a)
+            Q = ed_mul(n, a, d, rng.randrange(2, 1000), P)
+            lam = rng.randrange(1, n)
+            Q = tuple(c * lam % n for c in Q)
+            yield Case(f"ed_ops {n} {tw} {d} {fmt(*P)} {fmt(*Q)}", tag=ft)
+            yield Case(f"ed_ops {n} {tw} {d} {fmt(*P)} {fmt(*P)}", tag=ft)
+            yield Case(f"ed_ops {n} {tw} {d} {fmt(*Q)} {fmt((-P[0]) % n, P[1], P[2])}", tag=ft)
+            # coordinates next to the modulus and next to the word boundaries (K only)
+            edge = [n - 1, n - 2, (1 << 64) % n, ((1 << 64) - 1) % n, (n >> 1) + 1, 1]
+            yield Case(f"ed_ops {n} {tw} {rng.randrange(n)} {fmt(*edge)}", o=False)
+            for k in ks:
+                yield Case(f"ed_chainmul {n} {tw} {d} {fmt(*P)} {k}", tag=ft)
+            if (i % 2 == 0) == (a == 1):     # the 1024-bit reference multiplication is the slow part of the oracle: one per modulus
+                k = (M, rng.getrandbits(1024) | 1 << 1023, rng.choice(large))[i // 2 % 3]
+                yield Case(f"ed_chainmul1024 {n} {tw} {d} {fmt(*P)} {k}", tag=ft)
+        if small:
+            d, P = curve_point(rng, n, -1)
+            Q = ed_mul(n, -1, d, rng.randrange(2, 1000), P)
+            yield Case(f"ed128_ops {n} {fmt(*P)} {fmt(*Q)}", tag=ft)
+            yield Case(f"ed128_ops {n} {fmt(*P)} {fmt(*P)}", tag=ft)
+            yield Case(f"ed128_ops {n} {fmt(n - 1, n - 2, (1 << 64) % n, ((1 << 64) - 1) % n, (n >> 1) + 1, 1)}", o=False)
+            for k in ks + [1, 0]:
+                yield Case(f"ed128_chainmul {n} {fmt(*P)} {k}", tag=ft)
+            for seed in (2, 5, rng.randrange(2, 1 << 16)):
+                yield Case(f"ecm128_mul {n} {seed} {rng.choice(ks)},{rng.choice(smooth64)}", k=False, tag=ft)
+        for fam in ("s", "e"):
+            for seed in (2, rng.randrange(2, 1 << 32)):
+                yield Case(f"ecm_mul {n} {fam} {seed} {rng.choice(ks)},{rng.choice(smooth64)}", k=False, tag=ft)
+            if (i + (fam == "e")) % 2 == 0:
+                yield Case(f"ecm_mul1024 {n} {fam} {rng.randrange(2, 1 << 20)} {rng.choice(large)}", k=False, tag=ft)
+        for seed in (2, rng.randrange(2, 1 << 32)):
+            yield Case(f"suyama {n} {seed}", k=False)
+        yield Case(f"suyama_ops {n} {n - 1} {(1 << 64) % n} {(n >> 1) + 1}", o=False)
+
+
 def cases(tier, rng, extended=False):
+    yield from boundary_cases(_fork(rng, "C15-boundary"), tier)
     q = tier == "quick"
     mul = 10 if extended else 1
     # --- chain builders (K + O)
